@@ -1022,12 +1022,14 @@ fn big_case(rng: &mut Rng, big_max: usize) -> (Vec<Rq>, bool) {
     if big_max > 257 {
         sizes.extend([1000, 4096, big_max]);
     }
-    let m = sizes[rng.gen_range(0..sizes.len())];
+    let m = if big_max > 100_000_000 { big_max - 100_000_000 } else { sizes[rng.gen_range(0..sizes.len())] }; // (timing aid)
     let name = |i: usize| format!("b:{}", i);
     let all: Vec<String> = (0..m).map(name).collect();
     let mut v: Vec<Rq> = Vec::new();
     // write every key through one of the bulk / per-key paths
-    match rng.gen_range(0..4) {
+    // (per-key generic commands cost O(keys) each in a debug build - verify_invariants after every set_time -
+    // so above 300 keys only the bulk paths are used)
+    match if m > 300 { [0usize, 1, 3][rng.gen_range(0..3)] } else { rng.gen_range(0..4) } {
         0 => v.push(Rq::Gen(Command::MSet(all.iter().map(|k| (k.clone(), SDS::from_str(k))).collect()))),
         1 => v.push(Rq::PipeSet(all.iter().map(|k| (k.clone(), k.as_bytes().to_vec())).collect())),
         2 => for (i, k) in all.iter().enumerate() {
@@ -1051,14 +1053,16 @@ fn big_case(rng: &mut Rng, big_max: usize) -> (Vec<Rq>, bool) {
     v.push(Rq::Gen(Command::Info));
     v.push(Rq::Gen(Command::Keys("b:*".into())));
     v.push(Rq::Gen(Command::Keys("b:[0-9]".into())));
-    v.push(Rq::Gen(Command::Exists(all.clone())));
+    let some: Vec<String> = if m > 300 { all.iter().step_by(m / 300 + 1).cloned().collect() } else { all.clone() };
+    v.push(Rq::Gen(Command::Exists(some.clone())));
     // a complete SCAN iteration (the cursor is an index into the sorted key list, so the pages of a
     // correct server start at multiples of COUNT), then cursors and counts at the edges
     let count: Option<usize> = [None, Some(1), Some(7), Some(10), Some(11), Some(64), Some(m.saturating_sub(1).max(1)), Some(m), Some(m + 1)][rng.gen_range(0..9)];
     let step = count.unwrap_or(10);
     let mut cur = 0usize;
     let mut pages = 0;
-    while cur <= m + step && pages < 45 {
+    let max_pages = if m > 5000 { 6 } else { 45 }; // (every page of a large scan gathers and sorts all keys)
+    while cur <= m + step && pages < max_pages {
         v.push(Rq::Gen(Command::Scan { cursor: cur as u64, pattern: if rng.gen_bool(0.2) { Some("b:[1-4]*".into()) } else { None }, count }));
         cur += step;
         pages += 1;
@@ -1081,7 +1085,7 @@ fn big_case(rng: &mut Rng, big_max: usize) -> (Vec<Rq>, bool) {
     // multi-key DEL of half of the keys, the rest one by one or flushed
     v.push(Rq::Gen(Command::Del(all.iter().step_by(2).cloned().collect())));
     v.push(Rq::Gen(Command::DbSize));
-    v.push(Rq::Gen(Command::Exists(all.clone())));
+    v.push(Rq::Gen(Command::Exists(some)));
     v.push(Rq::Gen(Command::Scan { cursor: 0, pattern: None, count: None }));
     v.push(Rq::Gen(if rng.gen_bool(0.5) { Command::FlushAll } else { Command::Del(all.clone()) }));
     v.push(Rq::Gen(Command::DbSize));
@@ -1116,6 +1120,7 @@ fn main() {
     let (ps, pd, pe, ped) = (pool_s(), pool_d(), pool_e(), pool_ed());
     let free_time = args.get("free_time", 0) == 1;
     let big_max = args.get("big_max", 257) as usize;
+    let force_big = args.get("force_big", 0) == 1;
 
     if args.get("nonutf8", 0) == 1 {
         // observation only (not part of the check): a key that is not valid UTF-8
@@ -1182,6 +1187,7 @@ fn main() {
             const EXTRA_COUNTS: [usize; 8] = [4, 5, 7, 8, 17, 32, 64, 256];
             let n = if rng.gen_bool(0.12) { EXTRA_COUNTS[rng.gen_range(0..EXTRA_COUNTS.len())] } else { SHARD_COUNTS[rng.gen_range(0..SHARD_COUNTS.len())] };
             let flavour = match rng.gen_range(0..100) { 0..=35 => "pure", 36..=49 => "class", 50..=56 => "scan", 57..=68 => "wide", 69..=79 => "ttl", 80..=86 => "script", 87..=94 => "conn", _ => "big" };
+            let flavour = if force_big { "big" } else { flavour };
             let wide = flavour == "wide";
             let mut sk = ps.clone();
             sk.shuffle(&mut rng);
@@ -1405,7 +1411,7 @@ fn main() {
             for r in &seq {
                 if let Rq::Gen(cmd) = r {
                     let ks = cmd.get_keys();
-                    if ks.len() >= 2 && !matches!(cmd, Command::Keys(_)) {
+                    if ks.len() >= 2 && ks.len() <= 16 && !matches!(cmd, Command::Keys(_)) {
                         for x in &ks {
                             for y in &ks {
                                 if let (Some(a), Some(b2)) = (cls.get(x), cls.get(y)) {
